@@ -240,7 +240,7 @@ func pickCfg(cfgs map[string]*HarnessCfg, name, tier string) *HarnessCfg {
 }
 
 func runHarness(prog *ssa.Program, solver *Portfolio, fn *ssa.Function, hc *HarnessCfg, kfs []KnownFinding, verbose bool) *RunOut {
-	e := &Engine{prog: prog, solver: solver, cfg: hc, fnInfo: map[*ssa.Function]*FnInfo{}, kf: kfs, harness: hc.Name, verbose: verbose, stepLimit: 2000000}
+	e := &Engine{harnessPkg: fn.Pkg, prog: prog, solver: solver, cfg: hc, fnInfo: map[*ssa.Function]*FnInfo{}, kf: kfs, harness: hc.Name, verbose: verbose, stepLimit: 2000000}
 	e.res = &HarnessResult{Name: hc.Name, Obl: map[string]*ObligationResult{}, Reach: map[string]int{}, Cuts: map[string]int{},
 		Funcs: map[string]bool{}, Stubs: map[string]int{}, pathSigs: map[string]bool{}}
 	to := hc.TimeoutS
